@@ -396,7 +396,7 @@ where
                         let left = root.pop_left();
                         let new = Node::new_boxed(key, value, left, None);
                         let prev = mem::replace(root, new);
-                        //@ proof { assert(inorder(Some(prev)) =~= seq![(n.key, n.value)] + r); }
+                        //@ proof { assert(inorder(prev.left) =~= Seq::<(K, V)>::empty()); assert(inorder(Some(prev)) =~= seq![(n.key, n.value)] + r); }
                         root.right = Some(prev);
                         //@ proof {
                         //@     let b = seq![(n.key, n.value)] + r;
@@ -447,50 +447,107 @@ where
         None
     }
 
-    pub fn remove(&mut self, key: &K) -> Option<V> {
+    pub fn remove(&mut self, key: &K) -> /*@ (res: @*/ Option<V> /*@ ) @*/
+    //@ requires old(self).wf(),
+    //@ ensures
+    //@     final(self).wf(), final(self).cmp() == old(self).cmp(),
+    //@     match res {
+    //@         Some(v) => exists|i: int| #[trigger] eq_at(old(self).cmp(), old(self).view(), *key, i) && v == old(self).view()[i].1
+    //@                     && final(self).view() == seq_del(old(self).view(), i)
+    //@                     && final(self).count() == old(self).count() - 1,
+    //@         None => no_eq(old(self).cmp(), old(self).view(), *key)
+    //@                     && final(self).view() == old(self).view() && final(self).count() == old(self).count(),
+    //@     },
+    {
+        //@ let ghost c = self.comparator;
+        //@ let ghost s = inorder(self.root);
         match *(&mut self.root) {
             None => {
                 return None;
             }
             Some(ref mut root) => {
                 splay(key, root, &self.comparator);
+                //@ proof { lemma_root_lookup(c, **root, *key); }
                 if (self.comparator)(key, &root.key) != Ordering::Equal {
                     return None;
                 }
             }
         }
+        //@ let ghost n = *self.root.unwrap();
+        //@ let ghost l = inorder(n.left);
+        //@ let ghost r = inorder(n.right);
+        //@ let ghost p = l.len() as int;
+        //@ proof {
+        //@     assert(s =~= l + seq![(n.key, n.value)] + r);
+        //@     assert(eq_at(c, s, *key, p));
+        //@     lemma_sorted_sub(c, l, seq![(n.key, n.value)], r);
+        //@     lemma_sorted_delete(c, l, (n.key, n.value), r);
+        //@     assert(seq_del(s, p) =~= l + r) by {
+        //@         assert(s.subrange(0, p) =~= l);
+        //@         assert(s.subrange(p + 1, s.len() as int) =~= r);
+        //@     }
+        //@ }
 
         let Node { left, right, value, .. } = *(&mut self.root).take().unwrap();
 
         *(&mut self.root) = match left {
             None => right,
             Some(mut node) => {
+                //@ proof { assert(l =~= nseq(*node)); }
                 splay(key, &mut node, &self.comparator);
+                //@ proof {
+                //@     // everything in the left subtree is below key, so the new root of it has no right child
+                //@     lemma_all_cat(c, inorder(node.left) + seq![(node.key, node.value)], inorder(node.right), *key);
+                //@     lemma_lt_gt_empty(c, inorder(node.right), *key);
+                //@     assert(l =~= inorder(node.left) + seq![(node.key, node.value)]);
+                //@ }
                 node.right = right;
+                //@ proof { assert(nseq(*node) =~= l + r); }
                 Some(node)
             }
         };
+        //@ proof { assert(inorder(self.root) =~= l + r); }
 
         self.size -= 1;
         Some(value)
     }
 
-    pub fn min(&self) -> Option<&K> {
-        self.min_node().map(|node| &node.key)
+    pub fn min(&self) -> /*@ (res: @*/ Option<&K> /*@ ) @*/
+    //@ ensures match res {
+    //@     Some(k) => self.view().len() > 0 && self.view()[0].0 == *k,
+    //@     None => self.view().len() == 0,
+    //@ },
+    {
+        self.min_node().map(|node /*@ : &Node<K, V> @*/| /*@ -> (r: &K) ensures *r == node.key, { @*/ &node.key /*@ } @*/)
     }
 
-    pub fn max(&self) -> Option<&K> {
-        self.max_node().map(|node| &node.key)
+    pub fn max(&self) -> /*@ (res: @*/ Option<&K> /*@ ) @*/
+    //@ ensures match res {
+    //@     Some(k) => self.view().len() > 0 && self.view()[self.view().len() - 1].0 == *k,
+    //@     None => self.view().len() == 0,
+    //@ },
+    {
+        self.max_node().map(|node /*@ : &Node<K, V> @*/| /*@ -> (r: &K) ensures *r == node.key, { @*/ &node.key /*@ } @*/)
     }
 
-    fn min_node(&self) -> Option<&Node<K, V>> {
+    fn min_node(&self) -> /*@ (res: @*/ Option<&Node<K, V>> /*@ ) @*/
+    //@ ensures match res {
+    //@     Some(n) => self.view().len() > 0 && self.view()[0] == (n.key, n.value),
+    //@     None => self.view().len() == 0,
+    //@ },
+    {
         match (&self.root) {
             Some(ref root) => {
                 let mut node = root;
+                //@ let ghost s = inorder(self.root);
+                //@ proof { assert(s =~= nseq(**node)); }
 
                 while let Some(ref left) = node.left
+                    //@ invariant s.len() > 0, nseq(**node).len() > 0, s[0] == nseq(**node)[0],
+                    //@ ensures node.left.is_none(),
                     //@ decreases nseq(**node).len()
                 {
+                    //@ proof { assert(nseq(**left).len() > 0); assert(nseq(**node)[0] == nseq(**left)[0]); }
                     node = left
                 }
                 Some(node)
@@ -499,14 +556,27 @@ where
         }
     }
 
-    fn max_node(&self) -> Option<&Node<K, V>> {
+    fn max_node(&self) -> /*@ (res: @*/ Option<&Node<K, V>> /*@ ) @*/
+    //@ ensures match res {
+    //@     Some(n) => self.view().len() > 0 && self.view()[self.view().len() - 1] == (n.key, n.value),
+    //@     None => self.view().len() == 0,
+    //@ },
+    {
         match (&self.root) {
             Some(ref root) => {
                 let mut node = root;
+                //@ let ghost s = inorder(self.root);
+                //@ proof { assert(s =~= nseq(**node)); }
 
                 while let Some(ref right) = node.right
+                    //@ invariant s.len() > 0, nseq(**node).len() > 0, s[s.len() - 1] == nseq(**node)[nseq(**node).len() - 1],
+                    //@ ensures node.right.is_none(),
                     //@ decreases nseq(**node).len()
                 {
+                    //@ proof {
+                    //@     assert(nseq(**right).len() > 0);
+                    //@     assert(nseq(**node)[nseq(**node).len() - 1] == nseq(**right)[nseq(**right).len() - 1]);
+                    //@ }
                     node = right
                 }
                 Some(node)
@@ -521,7 +591,9 @@ where
     C: Fn(&K, &K) -> Ordering,
 {
 
-    fn into_iter(self) -> IntoIter<K, V> { let mut this = self;
+    fn into_iter(self) -> /*@ (res: @*/ IntoIter<K, V> /*@ ) @*/
+    //@ ensures res.seq() == self.view(), res.rem() == self.count(), self.wf() ==> res.wf(),
+    { let mut this = self;
         IntoIter {
             cur: (&mut this.root).take(),
             remaining: this.size,
@@ -533,7 +605,9 @@ impl<K, V, C> SplayTree<K, V, C>
 where
     C: Fn(&K, &K) -> Ordering,
 {
-    fn drop(&mut self) {
+    fn drop(&mut self)
+    //@ ensures final(self).view() == Seq::<(K, V)>::empty(), final(self).count() == 0,
+    {
         self.clear();
     }
 }
@@ -544,27 +618,47 @@ pub struct IntoIter<K, V> {
 }
 
 impl<K, V> IntoIter<K, V> {
-    fn next(&mut self) -> Option<(K, V)> {
+    fn next(&mut self) -> /*@ (res: @*/ Option<(K, V)> /*@ ) @*/
+    //@ requires old(self).wf(),
+    //@ ensures
+    //@     final(self).wf(),
+    //@     match res {
+    //@         Some(kv) => old(self).seq().len() > 0 && kv == old(self).seq()[0]
+    //@                     && final(self).seq() == old(self).seq().subrange(1, old(self).seq().len() as int),
+    //@         None => old(self).seq().len() == 0 && final(self).seq() == old(self).seq() && final(self).rem() == old(self).rem(),
+    //@     },
+    {
+        //@ let ghost s = inorder(self.cur);
         let mut cur = match self.cur.take() {
             Some(cur) => cur,
             None => return None,
         };
+        //@ proof { assert(s =~= nseq(*cur)); }
         loop
+            //@ invariant nseq(*cur) == s, self.remaining == s.len(), self.cur.is_none(), s == old(self).seq(),
             //@ decreases inorder(cur.left).len()
         {
             match cur.pop_left() {
                 Some(node) => {
                     let mut node = node;
+                    //@ let ghost c0 = *cur;
+                    //@ let ghost n0 = *node;
+                    //@ proof { assert(s =~= (inorder(n0.left) + seq![(n0.key, n0.value)] + inorder(n0.right)) + seq![(c0.key, c0.value)] + inorder(c0.right)); }
                     cur.left = node.pop_right();
+                    //@ proof { assert(inorder(Some(cur)) =~= inorder(n0.right) + seq![(c0.key, c0.value)] + inorder(c0.right)); }
                     node.right = Some(cur);
                     cur = node;
+                    //@ proof { assert(nseq(*cur) =~= s); }
                 }
 
                 None => {
+                    //@ let ghost e = (cur.key, cur.value);
+                    //@ proof { assert(s =~= seq![e] + inorder(cur.right)); assert(s[0] == e); }
                     self.cur = cur.pop_right();
                     // left and right fields are both None
                     let node = *cur;
                     let Node { key, value, .. } = node;
+                    //@ proof { assert(inorder(self.cur) =~= s.subrange(1, s.len() as int)); assert((key, value) == e); }
                     self.remaining -= 1;
                     return Some((key, value));
                 }
@@ -572,33 +666,55 @@ impl<K, V> IntoIter<K, V> {
         }
     }
 
-    fn size_hint(&self) -> (usize, Option<usize>) {
+    fn size_hint(&self) -> /*@ (res: @*/ (usize, Option<usize>) /*@ ) @*/
+    //@ ensures res.0 == self.rem(), res.1 == Some(self.rem()),
+    {
         (self.remaining, Some(self.remaining))
     }
 }
 
 impl<K, V> IntoIter<K, V> {
-    fn next_back(&mut self) -> Option<(K, V)> {
+    fn next_back(&mut self) -> /*@ (res: @*/ Option<(K, V)> /*@ ) @*/
+    //@ requires old(self).wf(),
+    //@ ensures
+    //@     final(self).wf(),
+    //@     match res {
+    //@         Some(kv) => old(self).seq().len() > 0 && kv == old(self).seq()[old(self).seq().len() - 1]
+    //@                     && final(self).seq() == old(self).seq().subrange(0, old(self).seq().len() - 1),
+    //@         None => old(self).seq().len() == 0 && final(self).seq() == old(self).seq() && final(self).rem() == old(self).rem(),
+    //@     },
+    {
+        //@ let ghost s = inorder(self.cur);
         let mut cur = match self.cur.take() {
             Some(cur) => cur,
             None => return None,
         };
+        //@ proof { assert(s =~= nseq(*cur)); }
         loop
+            //@ invariant nseq(*cur) == s, self.remaining == s.len(), self.cur.is_none(), s == old(self).seq(),
             //@ decreases inorder(cur.right).len()
         {
             match cur.pop_right() {
                 Some(node) => {
                     let mut node = node;
+                    //@ let ghost c0 = *cur;
+                    //@ let ghost n0 = *node;
+                    //@ proof { assert(s =~= inorder(c0.left) + seq![(c0.key, c0.value)] + (inorder(n0.left) + seq![(n0.key, n0.value)] + inorder(n0.right))); }
                     cur.right = node.pop_left();
+                    //@ proof { assert(inorder(Some(cur)) =~= inorder(c0.left) + seq![(c0.key, c0.value)] + inorder(n0.left)); }
                     node.left = Some(cur);
                     cur = node;
+                    //@ proof { assert(nseq(*cur) =~= s); }
                 }
 
                 None => {
+                    //@ let ghost e = (cur.key, cur.value);
+                    //@ proof { assert(s =~= inorder(cur.left) + seq![e]); assert(s[s.len() - 1] == e); }
                     self.cur = cur.pop_left();
                     // left and right fields are both None
                     let node = *cur;
                     let Node { key, value, .. } = node;
+                    //@ proof { assert(inorder(self.cur) =~= s.subrange(0, s.len() - 1)); assert((key, value) == e); }
                     self.remaining -= 1;
                     return Some((key, value));
                 }
